@@ -298,4 +298,20 @@ def i32Store8 (m : Mem) (addr v : Nat) : Out Mem := storeBytes m addr (leBytes 1
 def loadBytes (m : Mem) (addr n : Nat) : Out Bytes :=
   if addr + n ≤ m.length then .val ((m.drop addr).take n) else .ub .outOfBounds
 
+/-- The guest-memory effect of `wasiPathReadlink` after the path has been resolved:
+      length = readlink(nativeResolvedPath, buffer, bufferLength);   // host call, writes `length` bytes, no NUL
+      if (length < 0) return wasiErrno();
+      [buffer[length] = '\\0';]                                       // iff Gen.WasiPath.readlinkTerminatesInGuest
+      i32_store(memory, lengthPointer, length);
+    `host`: errno name, or the link target (the host places `min(|target|, bufferLength)` bytes). -/
+def pathReadlinkMem (host : Sum String Bytes) (mem : Mem) (bufPtr bufLen lenPtr : Nat) : Out (Nat × Mem) :=
+  match host with
+  | .inl e => .val (wasiErrno e, mem)
+  | .inr target => do
+    let length := min target.length bufLen
+    let mem ← storeBytes mem bufPtr (target.take length)
+    let mem ← if Gen.WasiPath.readlinkTerminatesInGuest then storeBytes mem (bufPtr + length) [0] else .val mem
+    let mem ← i32Store mem lenPtr length
+    .val (Gen.WasiPath.errnoSuccess, mem)
+
 end W2c2Verif.WasiPath
